@@ -3,6 +3,8 @@
 Domain   generated histories (flat, nested, -sf runs whose parents receive only references, empty folders, trees of
          only directories, runs ending 10/11, rename records via -dr, repeated -h, all format subsets, -n, -i,
          -ii, creator options with syntactically valid e-mail) and `flatten` of any history.
+         Later additions: overlapping -sf selections on altered files; names differing in normal form / case only;
+         history folders whose names need XML escaping, written several times; renamed nested history folders.
 Oracle   every file that a create or flatten run wrote or rewrote (before/after byte snapshots of all ascmhl folders
          and of the flatten destination) is validated with lxml.etree.XMLSchema built from /repo/xsd/ASCMHL.xsd
          (*.mhl) or ASCMHLDirectory__combined.xsd (chain / collection files); the tool's own xsd-schema-check must
